@@ -900,3 +900,103 @@ func rawXML(r *Run, innerToo bool) {
 	}
 	r.Min("raw_xml_sinks", n, 2)
 }
+
+// ---------------------------------------------------------------------------
+// R-NESTED-MATCH (C16): "nested lists rendered recursively" needs the closing tag that MATCHES an
+// opening tag.  A loop that walks from one closing tag to the next to skip nested blocks must look
+// for opening tags in the same loop: openings that lie between two closing tags (a second sibling
+// block inside the body) change which closing tag matches.  A loop that only searches closing
+// tags — with the number of openings counted once, before the loop — ends the outer block inside
+// its second inner block.  Decided on the CFG: every search for the closing tag that sits in a
+// cycle shares that cycle with a search for the opening tag.  Matchers without such a loop
+// (tokenisers, recursive descent) are not subject to the rule.
+// ---------------------------------------------------------------------------
+
+func ruleNestedMatch(r *Run) {
+	p := r.P
+	type search struct {
+		in    ssa.Instruction
+		open  bool
+		close bool
+	}
+	classify := func(c *ssa.Call) (open, cl bool) {
+		var texts []string
+		cn := calleeName(c)
+		switch {
+		case strings.HasPrefix(cn, "(*regexp.Regexp).Find"):
+			if len(c.Call.Args) > 0 {
+				texts = regexPatternsOf(c.Call.Args[0])
+			}
+		case cn == "strings.Index" || cn == "strings.LastIndex" || cn == "strings.Contains" || cn == "strings.Cut" || cn == "strings.HasPrefix":
+			if len(c.Call.Args) > 1 {
+				if s, ok := constString(c.Call.Args[1]); ok {
+					texts = []string{s}
+				}
+			}
+		}
+		for _, t := range texts {
+			plain := strings.NewReplacer(`\`, "").Replace(t)
+			if strings.Contains(plain, "{{/each") {
+				cl = true
+			}
+			if strings.Contains(plain, "{{#each") {
+				open = true
+			}
+		}
+		return
+	}
+	n := 0
+	for _, fn := range p.ModFuncs() {
+		if fn.Pkg == nil || fn.Pkg.Pkg.Path() != pkgDoc {
+			continue
+		}
+		var ss []search
+		allInstrs(fn, func(in ssa.Instruction) {
+			if c, ok := in.(*ssa.Call); ok {
+				if o, cl := classify(c); o || cl {
+					ss = append(ss, search{in, o, cl})
+				}
+			}
+		})
+		if len(ss) == 0 {
+			continue
+		}
+		reach := map[*ssa.BasicBlock]map[*ssa.BasicBlock]bool{}
+		reachFrom := func(b *ssa.BasicBlock) map[*ssa.BasicBlock]bool {
+			if m, ok := reach[b]; ok {
+				return m
+			}
+			m := map[*ssa.BasicBlock]bool{}
+			for _, s := range b.Succs {
+				for k := range reachableBlocks(s, nil) {
+					m[k] = true
+				}
+			}
+			reach[b] = m
+			return m
+		}
+		for _, s := range ss {
+			if !s.close || s.open {
+				continue
+			}
+			b := s.in.Block()
+			if !reachFrom(b)[b] {
+				continue // not in a loop
+			}
+			n++
+			ok := false
+			for _, o := range ss {
+				if !o.open {
+					continue
+				}
+				ob := o.in.Block()
+				if ob == b || (reachFrom(b)[ob] && reachFrom(ob)[b]) {
+					ok = true
+				}
+			}
+			r.Check("nested-match", shortName(fn), s.in.Pos(), ok,
+				fmt.Sprintf("%s steps from one {{/each}} to the next in a loop (%s) without looking for {{#each}} in the same loop: openings between two closing tags (a second inner block in the body) are not counted and the outer block is ended at the wrong tag", shortName(fn), p.pos(s.in.Pos())))
+		}
+	}
+	r.Count("closing_tag_searches_in_loops", n)
+}
